@@ -106,10 +106,11 @@ class Explorer:
                 self.transitions += 1
                 self.max_depth = max(self.max_depth, len(nh))
                 k = self.canon(obj, nh)  # before the invariant: invariants may read (and so cache) attributes
-                for key, msg in self.invariant(hist, op, obj, obs[-1], obs):
+                for item in self.invariant(hist, op, obj, obs[-1], obs):
+                    key, msg = item[0], item[1]
                     if key not in fail_keys:
                         fail_keys.add(key)
-                        self.failures.append((key, msg, list(nh)))
+                        self.failures.append((key, msg, list(nh)) if len(item) < 3 else (key, msg, list(nh), item[2]))
                 if k not in seen:
                     if len(seen) >= self.max_states:
                         self.capped = True
